@@ -997,6 +997,104 @@ def _gen_sequences(rng, T, out):
     out.append(case("seq-master-chain-refuse", "master_chain", 0, 0, rng.randbytes(16), True, "m/x"))
 
 
+MAGICS = (V_XPUB, V_XPRV, V_TPUB, V_TPRV)
+
+
+def _xk_from_region(region, testnet, key):
+    """header bytes 4..45 (depth | fingerprint | child number | chain code) taken verbatim from [region]"""
+    return XK(testnet, region[0], bytes(region[1:5]), int.from_bytes(region[5:9], "big"), bytes(region[9:41]), key)
+
+
+def _gen_magic(rng, T, out):
+    """content that looks like structure: the format's own version magics (of either network and key type) as field
+    values -- at every offset of depth | fingerprint | child number | chain code, straddling the field boundaries,
+    inside the key data, as depth bytes and as child indices of a path"""
+    cvs = [43, 79] if T else [43]
+    for cv in cvs:
+        C = curve(cv)
+        M = C["n"] + 2
+        hf = hm(M)
+        cnt = 0
+        for testnet in (False, True):
+            for magic in MAGICS:
+                for off in range(0, 38):
+                    region = bytearray(rng.randbytes(41))
+                    if region[0] == 0:
+                        region[0] = 1
+                    region[off:off + 4] = magic
+                    k = rng.randrange(1, C["n"])
+                    where = "depth+fp" if off == 0 else "fp" if off == 1 else "fp|child" if off < 5 else "child" if off == 5 else \
+                        "child|cc" if off < 9 else "cc"
+                    for public in (False, True):
+                        X = _xk_from_region(region, testnet, k)
+                        if public:
+                            X = X.neuter(C)
+                        cnt += 1
+                        kind = "pub" if public else "prv"
+                        if not public or T or cnt % 3 == 0:
+                            out.append(case("magic-%s-get_xpub-%s" % (where, kind), "get_xpub", cv, 0, X.ser()))
+                        if T or cnt % 4 == 0:
+                            out.append(case("magic-%s-deser-%s" % (where, kind), "deser", cv, 0, X.ser()))
+                            out.append(case("magic-%s-deser-ser-deser-%s" % (where, kind), "deser_ser_deser", cv, M, X.ser(), cnt % 8 == 0))
+                        if T or cnt % 5 == 0:
+                            P = "M" if public else "m"
+                            out.append(case("magic-%s-cli-xpub-dump-%s" % (where, kind), "cli_hd", cv, M, P, X.ser(), True, True, False))
+                            out.append(case("magic-%s-derive1-%s" % (where, kind), "cli_hd", cv, M, P + "/1", X.ser(), True, cnt % 2 == 0, False))
+                # depth bytes taken from the magics
+                for dbyte in sorted(set(magic)):
+                    region = bytearray(rng.randbytes(41))
+                    region[0] = dbyte
+                    X = _xk_from_region(region, testnet, rng.randrange(1, C["n"]))
+                    out.append(case("magic-depth-byte", "get_xpub", cv, 0, X.ser()))
+                # the magic as a child index of the path (also +-1 and the hardened twin), private and public derivation
+                mi = int.from_bytes(magic, "big")
+                for idx in (mi, mi + H) + ((mi - 1, mi + 1) if T else ()):
+                    for public in (False, True):
+                        if public and idx >= H:
+                            continue
+                        for _ in range(12):
+                            X = _small_xk(rng, cv, public, testnet=testnet)
+                            pre = [rng.randrange(0, 5)] if rng.random() < 0.5 else []
+                            if not isinstance(ref_derive(C, hf, X, pre + [idx, 2]), str):
+                                break
+                        P = "M" if public else "m"
+                        for idxs in (pre + [idx], pre + [idx, 2]):
+                            cls = "magic-index-%s-%s" % ("pub" if public else "prv", _classify_derive(C, hf, X, idxs))
+                            out.append(case(cls, "derive", cv, M, path_text(public, idxs), X.ser()))
+                            out.append(case(cls + "-cli-xpub", "cli_hd", cv, M, path_text(public, idxs), X.ser(), True, True, False))
+                        out.append(case("magic-index-stepwise", "derive_stepwise", cv, M, P, [comp_text(i) for i in pre + [idx, 2]], X.ser()))
+    # secp256k1: the magic inside the key data (private scalar / x coordinate) and, once per network, as child index
+    C = SECP
+    for testnet in (False, True):
+        for magic in (MAGICS if T else (V_TPRV if testnet else V_XPRV, V_TPUB if testnet else V_XPUB)):
+            for off in ((1, 14, 28) if T else (rng.choice((1, 14, 28)),)):
+                kb = bytearray(rng.randbytes(32))
+                kb[0] = 0x7f
+                kb[off:off + 4] = magic
+                region = bytearray(rng.randbytes(41))
+                region[0] = region[0] or 1
+                X = _xk_from_region(region, testnet, int.from_bytes(kb, "big"))
+                out.append(case("magic-keydata-prv", "deser", 0, 0, X.ser()))
+                out.append(case("magic-keydata-prv", "get_xpub", 0, 0, X.ser()))
+                P = None
+                while P is None:
+                    xb = bytearray(rng.randbytes(32))
+                    xb[0] = 0x7f
+                    xb[off:off + 4] = magic
+                    P = lift_x(C, int.from_bytes(xb, "big"), rng.random() < 0.5)
+                Xp = _xk_from_region(region, testnet, P)
+                out.append(case("magic-keydata-pub", "get_xpub", 0, 0, Xp.ser()))
+                out.append(case("magic-keydata-pub", "deser_ser_deser", 0, 0, Xp.ser(), False))
+        mi = int.from_bytes(V_TPRV if testnet else V_XPRV, "big")
+        k, cc = ref_master(rng.randbytes(32))
+        Xm = XK(testnet, 0, b"\0\0\0\0", 0, cc, k)
+        out.append(case("magic-index-secp", "cli_hd", 0, 0, "m/%d" % mi, Xm.ser(), True, True, False))
+        region = bytearray(rng.randbytes(41))
+        region[0] = 3
+        region[5:9] = V_TPRV if testnet else V_XPRV
+        out.append(case("magic-child-secp", "get_xpub", 0, 0, _xk_from_region(region, testnet, k).ser()))
+
+
 def _gen_cli(rng, T, out):
     """`bits hd`: every flag combination x key kind x path kind, acceptance and refusal; mostly on the small curve"""
     combos = [(xp, du, pr) for xp in (False, True) for du in (False, True) for pr in (False, True)]
@@ -1065,6 +1163,7 @@ def _gen_cases(rng, tier):
     _gen_secp(rng, T, out)
     _gen_cli(rng, T, out)
     _gen_sequences(rng, T, out)
+    _gen_magic(rng, T, out)
     return out
 
 
